@@ -106,7 +106,7 @@ def main():
         })
     m = {
         "version": 1,
-        "setup_cmd": "cd /verif/harness && CARGO_NET_OFFLINE=true cargo build --release --offline",
+        "setup_cmd": "cd /verif/harness && CARGO_NET_OFFLINE=true cargo build --release --offline && (cd fuzz && CARGO_NET_OFFLINE=true cargo +nightly fuzz build >/dev/null 2>&1 || echo 'note: libFuzzer targets not pre-built (they are built on demand by the thorough tier)')",
         "hooks": {
             "guard": "html2text_verif",
             "enable": "none needed: every property is observable through the public API; the guard name (RUSTFLAGS --cfg html2text_verif) is reserved and unused",
@@ -117,7 +117,11 @@ def main():
         "engines": [{
             "name": "check", "path": "/verif/harness",
             "serves_properties": [c["property_id"] for c in checks],
-            "kind_free_text": "Rust binary: sharded proptest runner (16 shards seeded from VERIF_SEED), bounded-exhaustive enumerators, JSON delta-debugging minimiser, replay, evidence writer, known-findings replay",
+            "kind_free_text": "Rust binary: sharded proptest runner (16 shards seeded from VERIF_SEED), bounded-exhaustive enumerators, JSON delta-debugging minimiser, replay, evidence writer, known-findings replay, hang watchdog",
+        }, {
+            "name": "libfuzzer", "path": "/verif/harness/fuzz",
+            "serves_properties": ["C01", "C02", "C03", "C10", "C11", "C17"],
+            "kind_free_text": "cargo-fuzz / libFuzzer targets fuzz_render, fuzz_struct, fuzz_css with the semantic oracles of the harness library inside the target; quick tier replays /verif/corpus through the same oracles in-process, thorough tier runs -fork=16 campaigns on a fresh corpus copy and converts artifacts into replay files",
         }],
         "checks": checks,
         "not_applicable": [{"property_id": p, "reason": NOT_YET} for p in ORDER if p not in CHECKS],
